@@ -60,6 +60,7 @@ func runC02(c *Ctx) {
 	r3 := c.Rule("R3", "every recursion cycle descends the tree or passes a visited-set gate", 6)
 	r4 := c.Rule("R4", "visited sets are grow-only during the traversal", 4)
 	c02Recursion(c, r3, r4, scope)
+	c02PairMemoMonotone(c, r4)
 
 	// ---- R5
 	r5 := c.Rule("R5", "every loop has a termination argument (range, counting, child cursor, shrinking worklist)", 20)
